@@ -18,6 +18,9 @@ Binding (fault enumeration, harness/lifecycle.py):
                 a third one after each iteration later still.  Silent-terminal configurations:
                 each terminal in turn (read-only ones and writers) stops answering at the moment
                 of the first cancel(), so the clean-up talks to a terminal that is gone.
+                Lost-cyclic-frame configurations: from the n-th on the group's cyclic frames do
+                not come back (register datagrams do), so cancellations land on the loop's
+                time-out path; for the process kind the `running` flag is cleared there.
                 fast: register_sync_group is the real method; ec.programs is a real kernel
                 PROG_ARRAY and sg.load() really loads the group's program when the kernel is
                 usable (else a dictionary behind lookup/update/delete_elem and a fake load).
@@ -84,6 +87,15 @@ def silent_configs(quick):
     return out
 
 
+def lossy_configs(quick):
+    """the group's cyclic frames are lost from the n-th on, so the cancellations of the second
+    half of the run land on the time-out path of the loop (wait_for -> TimeoutError -> resend)"""
+    base = [c for c in async_configs(quick) if c["nterm"] == 2 and c["delay"] > 0] \
+        + ([] if quick else [c for c in async_configs(quick) if c["nterm"] == 3 and sum(c["rw"]) == 2])
+    return [dict(c, lose_from=(4 if c["kind"] == "fast" else 2) + d)
+            for c in base for d in ((0,) if quick else (0, 1))]
+
+
 def depth_rule(quick, cfg):
     """how many cancel() calls per run, as a function of the iteration k of the first one and
     of n = the last k: two everywhere (the second lands in the clean-up) - for silent-terminal
@@ -121,6 +133,15 @@ def process_cases(quick):
             out.append(dict(kind="process", cfg=cfg, point=point, second=None))
         for point in ("k1", "cycling") if quick else ("k1", "k2", "cycling", "exitrace"):
             out.append(dict(kind="process", cfg=cfg, point=point, second="waiting"))
+    # the group's cyclic frames stop coming back (register datagrams are still answered): the
+    # child is on its time-out path when the flag is cleared
+    lost = config("process", 2, (True, False), (4, 4), lose_from=3)
+    for point, second in (("cycling", None),) if quick else \
+            (("cycling", None), ("cycling", "waiting"), ("k1", None)):
+        out.append(dict(kind="process", cfg=lost, point=point, second=second))
+    if not quick:
+        out.append(dict(kind="process", point="cycling", second=None,
+                        cfg=config("process", 3, (True, True, False), (4, 4, 4), lose_from=1)))
     # a pure monitoring group (no written terminal) in a child
     mon = config("process", 2, (False, False), (4, 4))
     for point in ("k1", "cycling") if quick else ("k0", "k1", "cycling", "exitrace"):
@@ -328,7 +349,9 @@ def run(ctx):
         configs += [random_config(ctx.rng) for _ in range(n_extra)]
         silent = silent_configs(ctx.quick)
         ctx.extra["silent_terminal_configs"] = len(silent)
-        for cfg in configs + silent:
+        lossy = lossy_configs(ctx.quick)
+        ctx.extra["lost_cyclic_frame_configs"] = len(lossy)
+        for cfg in configs + silent + lossy:
             ref, cases = run_async_cases(ctx, cfg, depth_rule(ctx.quick, cfg))
             points.setdefault(cfg["kind"], []).append(ref["cancel_iters"][0] + 1)
             todo += cases
@@ -362,7 +385,8 @@ def run(ctx):
                 "k up to the end of the second cycle x every later iteration for a second cancel() "
                 "[x every iteration later still for a third: at the end of the second cycle; "
                 "thorough: every k of the gating configurations]; the same with each terminal in "
-                "turn going silent at the first cancel(); process: one of the named points x optional second cancel()); "
+                "turn going silent at the first cancel(), and with the cyclic frames lost from "
+                "the n-th on; process: one of the named points x optional second cancel()); "
                 "non-trivial = the group held something (an FMMU, an unanswered OPERATIONAL "
                 "request, its program-table entry, a running child) when cancel() was called")
     ctx.assumptions += [
